@@ -244,12 +244,46 @@ PROPS = {
                         "remaining attribute values", "behavioural equivalence of restored disciplines (execute/linearize agree)"],
     },
     "C10": {
-        "level_text": "Proof, index-wise and for all dimensions and points, with the operands as uninterpreted maps f, g and Jacobian maps Df, Dg.",
-        "level_note": "Trusted: pyvc, the numpy model (npmodel.py + plug_np_c10.py), reals for floats.",
+        "level_text": "Proof, index-wise and for all dimensions m, n and all points, with the operands as uninterpreted maps f, g: R^n -> R^m and uninterpreted "
+                      "Jacobian maps Df, Dg (shape (m, n), or a number / an (n,) gradient for number-valued functions): the value of f+g, f-g, f*g, f/g and of the "
+                      "combinations with a number or a vector (_OperationFunctionMaker._compute_operation, 20 typed variants) is the component-wise combination; the "
+                      "Jacobians of sums/differences, of scalings by a number or a vector and of products/quotients (_AdditionFunctionMaker / "
+                      "_MultiplicationFunctionMaker._compute_operation_jacobian) equal the textbook rules entry by entry; negation (_min_pt/_min_jac incl. the "
+                      "last_eval/dim bookkeeping of evaluate) and linear functions (A x + b and its Jacobian A) likewise; the sum-of-squares, positive "
+                      "sum-of-squares and maximum aggregations and their total/partial Jacobians equal their defining sums entry by entry (all components or a "
+                      "subset of distinct indices), the KS/IKS values and Jacobians equal the documented shifted exp/log formulas with exp/log uninterpreted; "
+                      "frame: no array existing at entry (input point, vector operand, constraint values, constraint Jacobian) nor any array returned by an "
+                      "operand function is modified. Sums are prefix sums; equal summands => equal sums is proved once by induction (PrefixSumLemmas). "
+                      "The check FAILS on the pinned tree on two genuine defects (product/quotient Jacobian of two vector-valued functions; in-place scaling of "
+                      "the caller's arrays by the max/KS/IKS aggregations), each with a finding region and a concrete run-time witness.",
+        "level_note": "Trusted: pyvc, the numpy model (npmodel.py + plug_np_c10.py: ufunc functions, atleast_2d, tile, axis sums, max/argmax, heaviside, matrix-vector "
+                      "product, in-place `a op= b` on array names), reals for floats (the shift by the maximum in KS/IKS only matters in floating point), exp/log "
+                      "uninterpreted (positivity of exp only). Operand functions are deterministic and are called at the given point only. Not covered: the "
+                      "MDOFunction objects built by __add__/__mul__/__neg__/offset/restrict (constructor wiring, names, expr), mixed number-/vector-valued operands, "
+                      "sparse coefficients, FunctionRestriction, LinearCompositeFunction, Concatenate, Taylor/convex-linear approximations, normalize, the bound side of "
+                      "KS/IKS, and the formula of three KS/IKS Jacobians for a subset of components (validated at run time only).",
         "design_ref": "DESIGN.md §4 C10",
+        "runtime": "contracts.rt_c10",
         "modules": ["contracts.c10_function_algebra"],
-        "assumptions": [],
-        "not_covered": [],
+        "assumptions": [
+            "MDOFunction conventions (preconditions): f(x) is a vector of size m >= 1 with Jacobian of shape (m, len(x)), or a number with a gradient of shape (len(x),); both "
+            "operands of a binary operation have the same output dimension (the result is built with dim = first_operand.dim); a vector operand has size m",
+            "the flags _second_operand_is_number/_second_operand_is_func and _operator/_operator_repr of a function maker are those its __init__ derives from the type of "
+            "the second operand and from `inverse` (constructor not under contract)",
+            "aggregations: at least one constraint component, the Jacobian has one row per component, rho > 0, indices (when given) are in range and pairwise distinct, "
+            "scale is a number (vector scale not covered)",
+            "numpy division by zero yields an unspecified value (inf/nan not modelled); max/argmax ignore NaN ordering; numpy.exp is positive; math.log raises ValueError for x <= 0",
+            "numpy.atleast_2d of a vector and A[0, :] are modelled as copies (numpy returns views; no later in-place write to them in the verified code)",
+            "lemma instances offered to the solver: congruence and positivity of prefix sums, proved by induction in PrefixSumLemmas",
+        ],
+        "not_covered": ["_OperationFunctionMaker.__init__ and MDOFunction.__add__/__sub__/__mul__/__truediv__/__neg__/offset (construction of the result object, names/expr/special_repr)",
+                        "MDOLinearFunction.__init__/__neg__/offset/restrict/normalize (construction; expression strings), sparse coefficient matrices",
+                        "mdo_quadratic_function.py, function_restriction.py, linear_composite_function.py, concatenate.py, taylor_polynomials.py, convex_linear_approx.py",
+                        "mixed operands (vector-valued with number-valued function), vector `scale` in the aggregations, aggregation_func.py wrappers and ConstraintAggregation discipline",
+                        "bound side of KS/IKS (KS_lower <= max <= KS_upper): not proved (lemmas `dominates` on prefix sums are available, exp/log monotonicity axioms not introduced)",
+                        "entry formulas of compute_total_ks_agg_jac / compute_total_iks_agg_jac / compute_partial_iks_agg_jac for a subset of components (proofs not stable; "
+                        "checked by the run-time contract only)",
+                        "that exp-shifted formulas equal the unshifted KS definition and that the IKS quotient rule is the derivative (needs calculus of exp)"],
     },
 }
 
